@@ -30,33 +30,48 @@ def worker(k):
     dblk = prog.src.find_adt(['bitcoin', 'blockdata', 'block', 'Block'])
 
     def scenario(it):
-        ids = [it.fresh('id%d' % i, 'u64', 0, 1 << 40) for i in range(k)]
+        # three identity notions of a transaction: wtxid (whole serialisation incl. witness), txid (without witness: what the
+        # merkle tree commits to and what "share an id" means), ntxid (additionally without the input scripts).
+        # equal wtxid => equal txid => equal ntxid; nothing else is assumed
+        ids = [it.fresh('id%d' % i, 'u64', 0, 1 << 40) for i in range(k)]          # txid
+        nids = [it.fresh('nid%d' % i, 'u64', 0, 1 << 40) for i in range(k)]
+        wids = [it.fresh('wid%d' % i, 'u64', 0, 1 << 40) for i in range(k)]
+        for i in range(k):
+            for j in range(i + 1, k):
+                it.assume(z3.Implies(wids[i].t == wids[j].t, ids[i].t == ids[j].t))
+                it.assume(z3.Implies(ids[i].t == ids[j].t, nids[i].t == nids[j].t))
         cb = [it.fresh_bool('cb%d' % i) for i in range(k)]
         merkle = it.fresh_bool('merkle_ok')
-        txs = VecV([Cell(Agg('Transaction', [Cell(ids[i]), Cell(cb[i])])) for i in range(k)])
+        txs = VecV([Cell(Agg('Transaction', [Cell(ids[i]), Cell(cb[i]), Cell(nids[i]), Cell(wids[i])])) for i in range(k)])
         vals = dict(header=Opaque('header'), txdata=txs)
         block = Agg('Block', [Cell(vals[f]) for f in dblk.fields])
         it.overrides['Transaction::is_coinbase'] = lambda it_, kk, r, a: deref(a[0]).fields[1].v
-        it.overrides['Transaction::compute_ntxid'] = lambda it_, kk, r, a: Agg('Ntxid', [Cell(deref(a[0]).fields[0].v)])
+        it.overrides['Transaction::compute_ntxid'] = lambda it_, kk, r, a: Agg('Ntxid', [Cell(deref(a[0]).fields[2].v)])
+        it.overrides['Transaction::compute_txid'] = it.overrides['Transaction::txid'] = lambda it_, kk, r, a: Agg('Txid', [Cell(deref(a[0]).fields[0].v)])
+        it.overrides['Transaction::compute_wtxid'] = it.overrides['Transaction::wtxid'] = lambda it_, kk, r, a: Agg('Wtxid', [Cell(deref(a[0]).fields[3].v)])
         it.overrides['bitcoin::Block::check_merkle_root'] = it.overrides['Block::check_merkle_root'] = lambda it_, kk, r, a: merkle
         r = it.call('block::validate_block', [Ref(Cell(block))])
         distinct = z3.And(*[ids[i].t != ids[j].t for i in range(k) for j in range(i + 1, k)]) if k > 1 else z3.BoolVal(True)
+        ndistinct = z3.And(*[nids[i].t != nids[j].t for i in range(k) for j in range(i + 1, k)]) if k > 1 else z3.BoolVal(True)
         nonempty = z3.BoolVal(k >= 1)
         cb0 = cb[0] if k else z3.BoolVal(False)
         good = z3.And(nonempty, cb0, merkle, distinct)
+        extra = dict(ids=[x.t for x in ids], nids=[x.t for x in nids], wids=[x.t for x in wids], coinbase=cb, merkle_ok=merkle)
         if r.variant == 0:
             seen.add('Ok')
             m = check_unsat(it, rep, z3.Not(good))
             if m is not None:
-                cands.add(kernel='v', role='accepts-unsound-block', model=m, k=k, ids=[x.t for x in ids], coinbase=cb, merkle_ok=merkle)
+                cands.add(kernel='v', role='accepts-unsound-block', model=m, k=k, **extra)
             return
         e = r.fields[0].v
         name = [v[0] for v in derr.variants if v[3] == e.variant][0]
         seen.add(name)
-        first_failing = z3.If(z3.Not(nonempty), 0, z3.If(z3.Not(cb0), 1, z3.If(z3.Not(merkle), 2, z3.If(z3.Not(distinct), 4, -1))))
+        # a block is rejected as a duplicate only if two transactions share (at least) the normalised id; any block whose
+        # normalised ids are pairwise distinct and that passes the other rules must be accepted
+        first_failing = z3.If(z3.Not(nonempty), 0, z3.If(z3.Not(cb0), 1, z3.If(z3.Not(merkle), 2, z3.If(z3.Not(distinct), 4, z3.If(z3.Not(ndistinct), 4, -1)))))
         m = check_unsat(it, rep, first_failing != ERRS.index(name))
         if m is not None:
-            cands.add(kernel='v', role='rejects-sound-block-or-wrong-error', model=m, k=k, error=name, ids=[x.t for x in ids], coinbase=cb, merkle_ok=merkle)
+            cands.add(kernel='v', role='rejects-sound-block-or-wrong-error', model=m, k=k, error=name, **extra)
 
     explore(prog, scenario, stats=st, on_panic=lambda it, e: cands.add(kernel='v', role='trap', model=it.model_ if it.feasible() else None, k=k, msg=str(e)))
     rep.add_stats(st, 'v:validate_block')
@@ -109,6 +124,10 @@ def translator_validation(rep, count):
         if n == 5:
             # [a b c d e] -> level: (ab)(cd)(ee) -> duplicating the pair (e e) at tx level: a b c d e e e e
             specs.append(dict(txs=base + [4, 4, 4], merkle='of_prefix', prefix=5))
+    # the CVE-2012-2459 mutation with a malleated copy: the repeated transaction carries other witness bytes (same txid, other wtxid)
+    specs.append(dict(txs=[0, 1, 2, 2], witness=[0, 0, 0, 1], merkle='of_prefix', prefix=3))
+    specs.append(dict(txs=[0, 1, 2, 3, 4, 4], witness=[0, 0, 0, 0, 1, 2], merkle='of_prefix', prefix=5))
+    specs.append(dict(txs=[0, 1, 2], witness=[0, 1, 2], merkle='ok'))          # segwit transactions, no duplicate: valid
     res = native_blocks(specs)
     for s, got in zip(specs, res):
         exp = conc_rule(s)
@@ -139,7 +158,19 @@ def confirm(cand, known):
             labels.append(labels[same[0]])
         else:
             labels.append(0 if (cbs[i] in (True, 'True') and 0 not in labels) else (max(labels + [0]) + 1))
+    # transactions with the same txid but different wtxid: the same transaction with another witness
+    wids = cand.get('wids') or [0] * k
+    wit = []
+    for i in range(k):
+        same_tx = [j for j in range(i) if ids[j] == ids[i]]
+        if not same_tx:
+            wit.append(0)
+        else:
+            same_w = [j for j in same_tx if wids[j] == wids[i]]
+            wit.append(wit[same_w[0]] if same_w else max(wit) + 1)
     spec = dict(txs=labels, merkle='ok' if cand['merkle_ok'] in (True, 'True') else 'wrong')
+    if any(wit):
+        spec['witness'] = wit
     got = native_blocks([spec])[0]
     exp = conc_rule(spec)
     doc['native'] = got
@@ -154,15 +185,15 @@ def main():
     global PROG
     tier = C.tier()
     rep = H.Report(PROP, tier)
-    K = 6 if tier == 'quick' else 7
+    K = 6 if tier == 'quick' else 8
     prog = PROG = H.load_program(['validation'], decl_crates=('validation',))
     btc.load_dep_decls(prog)
     rep.cov['mir'] = dict(prog.info)
-    rep.cov['bounds'] = dict(transactions='0..%d per block' % K, identities='symbolic integers (normalised txid = injective name)',
+    rep.cov['bounds'] = dict(transactions='0..%d per block' % K, identities='symbolic integers: wtxid / txid / ntxid per transaction (equal wtxid => equal txid => equal ntxid)',
                              outside='that every merkle-preserving mutation repeats a transaction (a fact about the merkle construction of the dependency); '
                                      'the header part (C11); blocks with more transactions')
     rep.cov['functions_encoded'] = ['block::validate_block', 'block::ensure_unique_transactions']
-    rep.cov['stubs'] = ['Transaction::is_coinbase -> symbolic bool per transaction', 'Transaction::compute_ntxid -> injective name of a symbolic identity',
+    rep.cov['stubs'] = ['Transaction::is_coinbase -> symbolic bool per transaction', 'Transaction::{compute_ntxid, compute_txid, compute_wtxid} -> three symbolic identities per transaction with equal wtxid => equal txid => equal ntxid',
                         'Block::check_merkle_root -> symbolic bool', 'BTreeSet -> ordered association list (forks on symbolic key comparisons)']
     rep.assumptions = ['std models faithful', '"share an id" is decided on the normalised txid the code uses (two transactions with equal txid have equal ntxid)']
     cands = Cands()
